@@ -72,7 +72,7 @@ func (intch *interceptedChannel) NewStream(ctx context.Context, desc *grpc.Strea
 	if intch.streamInt == nil {
 		return intch.ch.NewStream(ctx, desc, methodName, opts...)
 	}
-	cc, _ := intch.ch.(*grpc.ClientConn)
+	cc, _ := unwrap(intch.ch).(*grpc.ClientConn)
 	return intch.streamInt(ctx, desc, cc, methodName, intch.streamer, opts...)
 }
 
